@@ -111,11 +111,14 @@ pub fn run(
             };
 
             let spur_path = get_first_route(&spur_result)?;
-            let candidate_path = root_path
-                .into_iter()
-                .chain(spur_path)
-                .cloned()
-                .collect_vec();
+            // the spur path was searched from the spur vertex with a fresh state: re-traverse it
+            // from the end of the root path, so that its edges carry the state accumulated along
+            // the whole route and the access from the root path onto the spur path is paid
+            let root_route = root_path.iter().map(|e| (*e).clone()).collect_vec();
+            let spur_backward = spur_path.iter().rev().cloned().collect_vec();
+            let spur_route =
+                bidirectional_ops::reorient_reverse_route(&root_route, &spur_backward, si)?;
+            let candidate_path = root_route.into_iter().chain(spur_route).collect_vec();
             // the spur path only avoids the cut edges: it may lead back through the root path
             if bidirectional_ops::route_contains_loop(&candidate_path, si)? {
                 continue;
